@@ -17,7 +17,7 @@
 (***************************************************************************************)
 EXTENDS Integers, FiniteSets
 
-MaxLen == 5
+MaxLen == 10
 
 VARIABLES
   \* @type: Int;
